@@ -40,6 +40,47 @@ def run(ctx):
                           dict(vector=c["f"], spec_ok=c["ok"], spec_chars=c["chars"], mismatch=m))
     if len(res) != len(cases):
         raise common.NoVerdict("harness returned %d results for %d cases" % (len(res), len(cases)))
+    # ---- short reads (ZnFileShort): every read delivers any number of bytes; schedules replayed through a FIFO ----
+    stxt, _ = common.tlc(ctx, "ZnFileShort", "MC_ZnFileShort.cfg" if ctx.tier == "quick" else "MC_ZnFileShort_thorough.cfg", timeout=2500)
+    svecs = common.vectors(stxt, "sched")
+    if len(svecs) < 50000:
+        raise common.NoVerdict("too few short-read vectors from TLC: %d" % len(svecs))
+    multi = [v for v in svecs if len(v["sched"]) >= 2]
+    ssample = rnd.sample(multi, min(len(multi), 12000 if ctx.tier == "quick" else 120000))
+    scases = [dict(id=i, f=v["f"], sched=v["sched"], ok=v["ok"], chars=v["chars"], bom=v["bom"], reps=[rnd.randrange(6)]) for i, v in enumerate(ssample)]
+    sres = common.run_harness(ctx, znh, "fileshort", scases, timeout=3000, args=["-t", "20"])
+    if len(sres) != len(scases):
+        raise common.NoVerdict("harness returned %d results for %d short-read cases" % (len(sres), len(scases)))
+    for r in sres:
+        c = scases[r["id"]]
+        if r["obs"] != "done":
+            common.report(ctx, "harness-short:%s" % r["obs"], "driver observation %s: %s" % (r["obs"], r.get("detail", "")), dict(case=c, result=r)); continue
+        runs += r["runs"]
+        for m in r.get("mism") or []:
+            common.report(ctx, "%s:%s" % (m["api"].split("@")[0] + "@short-reads", m["kind"]), "%s on bytes [%s]: want %s, got %s" % (m["api"], m["hex"], m["want"], m["got"]),
+                          dict(vector=c["f"], schedule=c["sched"], spec_ok=c["ok"], spec_chars=c["chars"], mismatch=m))
+    # ---- loads in flight at the same time (ZnFileTwo): intended design holds, the shared-buffer deviation is refuted ----
+    common.tlc(ctx, "MC_ZnFileTwo", "MC_ZnFileTwo.cfg", timeout=600)
+    _, dinfo = common.tlc(ctx, "MC_ZnFileTwo", "MC_ZnFileTwo_shared.cfg", timeout=600, allow_violation=True)
+    if not dinfo["violated"]:
+        raise common.NoVerdict("model is vacuous: ZnFileTwo with one shared block buffer is not refuted")
+    valid3 = [v for v in vecs if v["ok"] and len(v["f"]) >= 2]
+    invalid3 = [v for v in vecs if not v["ok"] and len(v["f"]) >= 2]
+    ccases = []
+    for i in range(60 if ctx.tier == "quick" else 600):
+        fl = rnd.sample(valid3, 5) + rnd.sample(invalid3, 1)
+        rnd.shuffle(fl)
+        ccases.append(dict(id=i, files=[dict(f=v["f"], chars=v["chars"], ok=v["ok"], bom=v["bom"]) for v in fl], rep=rnd.randrange(6), loops=40))
+    cres = common.run_harness(ctx, znh, "fileconc", ccases, timeout=3000, args=["-t", "60"])
+    if len(cres) != len(ccases):
+        raise common.NoVerdict("harness returned %d results for %d concurrent cases" % (len(cres), len(ccases)))
+    for r in cres:
+        c = ccases[r["id"]]
+        if r["obs"] != "done":
+            common.report(ctx, "harness-conc:%s" % r["obs"], "driver observation %s: %s" % (r["obs"], r.get("detail", "")), dict(case=c, result=r)); continue
+        runs += r["runs"]
+        for m in r.get("mism") or []:
+            common.report(ctx, "%s:%s" % (m["api"], m["kind"]), "%s, %s: want %s, got %s" % (m["api"], m["hex"], m["want"], m["got"]), dict(case=c, mismatch=m))
     valid = [v for v in vecs if v["ok"]]
     samples = [dict(file=v["f"], spec_ok=v["ok"], spec_chars=v["chars"], bom=v["bom"]) for v in
                (rnd.sample(valid, 3) + rnd.sample(vecs, 3))]
@@ -52,7 +93,10 @@ def run(ctx):
              "that the chunked decoder refines the one-shot decoder; each file vector (expected chars/error computed "
              "by TLC) is replayed with %d concrete byte representatives through FileStream.Read(n) for n in %s, "
              "FileStream.ReadAll (plain and with the vector straddling the 4096-byte boundary at every split), "
-             "ByteStream.ReadAll and LoadFile().Execute; non-trivial = at least 2 bytes and not pure ASCII" % (nreps, bss),
+             "ByteStream.ReadAll and LoadFile().Execute; every valid vector also TILED into a file of more than two read blocks (ConcatLemma checked by TLC), plain and behind a byte-order mark; "
+             "short reads (ZnFileShort): every read delivers any number 1..3 (4) of bytes - TLC checks the refinement under every schedule and emits (file, schedule), a seeded sample of them is replayed through a FIFO "
+             "whose writer hands out exactly those portions (ReadAll and a Read(4096) loop); loads in flight at the same time (ZnFileTwo: own buffer per load holds, one shared block buffer refuted by TLC): "
+             "6 goroutines x 40 rounds decode their own tiled file each while the others decode theirs; non-trivial = at least 2 bytes and not pure ASCII" % (nreps, bss),
         vectors=len(vecs), valid_vectors=len(valid), impl_runs=runs, exhaustive=True,
         checker_cmd="tlc -config %s ZnFile.tla" % cfg,
     )
